@@ -107,12 +107,22 @@ def populate(fs):
     fs.setinfo("f.txt", {"details": {"modified": 1400000000}})
 
 
-def call(obj, name, args):
+def has_var_keyword(fn):
+    try:
+        return any(p.kind == p.VAR_KEYWORD for p in inspect.signature(fn).parameters.values())
+    except (TypeError, ValueError):
+        return False
+
+
+OPTION_MODES = ["w", "a", "r+", "x", "wb", "w+"]
+
+
+def call(obj, name, args, kwargs=None):
     import fs.errors as E
     try:
         import contextlib
         with contextlib.redirect_stdout(io.StringIO()):
-            r = getattr(obj, name)(*args)
+            r = getattr(obj, name)(*args, **(kwargs or {}))
         if inspect.isgenerator(r) or hasattr(r, "__next__"):
             try:
                 r = list(r)
@@ -238,20 +248,31 @@ def sweep_readonly(label, make, methods, rnd, results, depth=0):
     for name in methods:
         if name in ("close",):
             continue
-        for variant in range(14):
+        for variant in range(14 + 2 * len(OPTION_MODES)):
             ro, st = make()
             try:
                 fn = getattr(ro, name, None)
                 if fn is None:
                     continue
-                args = synth_args(name, getattr(FS, name, fn), variant, rnd)
+                kwargs = None
+                if variant >= 14:
+                    # methods taking **options forward them to openbin: a writable mode smuggled in there
+                    if not has_var_keyword(getattr(FS, name, fn)):
+                        continue
+                    k = variant - 14
+                    kwargs = {"mode": OPTION_MODES[k // 2]}
+                    args = synth_args(name, getattr(FS, name, fn), (0, 2)[k % 2], rnd)
+                    if args is not None and "mode" in [p for p in inspect.signature(getattr(FS, name, fn)).parameters]:
+                        continue            # mode is a named parameter there: covered by the variants above
+                else:
+                    args = synth_args(name, getattr(FS, name, fn), variant, rnd)
                 if args is None:
                     continue
                 before = st.snapshot()
-                verdict, value = call(ro, name, args)
+                verdict, value = call(ro, name, args, kwargs)
                 after = st.snapshot()
-                rec = dict(construction=label, method=name, args=repr(args)[:120], verdict=verdict,
-                           changed=before != after)
+                rec = dict(construction=label, method=name, args=(repr(args) + (" **%r" % kwargs if kwargs else ""))[:120],
+                           verdict=verdict, changed=before != after)
                 results.append(rec)
                 # objects returned by the call
                 if verdict == "ok" and value is not None:
